@@ -137,6 +137,8 @@ class GramCD(BaseSolver):
                     if p_obj_acc < p_obj:
                         w[:] = w_acc
                         grad[:] = grad_acc
+                        # the scores of the epoch are those of the point just replaced
+                        opt = penalty.subdiff_distance(w, grad, all_features)
                 if _verif.ON:
                     _verif.emit("aa", t=t, epoch=0, is_extrap=is_extrapolated, w=w,
                                 Xw=None, grad=grad, w_acc=w_acc, Xw_acc=None)
